@@ -7,7 +7,6 @@ import (
 
 	"verifsim/core"
 	_ "verifsim/sims/queuesim"
-	_ "verifsim/sims/toysim"
 )
 
 func TestMain(m *testing.M) { core.Main(m) }
